@@ -3,6 +3,8 @@
 # property it was aimed at exactly as registered in MANIFEST.json, undo it straight afterwards.
 # Output: tools/seeded_on_repo.tsv  (id, property, exit code, first violation class, replay confirmed?)
 cd /verif
+# never leave /repo patched, and never leave evidence written against a patched tree behind
+trap 'git -C /repo checkout -- . ; git -C /verif checkout -- evidence 2>/dev/null' EXIT
 out=tools/seeded_on_repo.tsv
 filter="${1:-}"   # optional substring: only ids containing it are (re)run, other rows are kept
 if [ -n "$filter" ]; then grep -v -- "$filter" $out > $out.tmp; mv $out.tmp $out; else : > $out; fi
